@@ -37,6 +37,8 @@ def units(tier, seed):
     for spec in sel:
         for rep in ("ge", "sge", "dsge", "stack"):
             decs = ("maxdepth", "pigrow") if rep in ("ge", "sge") else ("maxdepth",)
+            if rep in ("ge", "sge") and spec["name"].split(":")[0] in ("S1", "S2", "S3", "S5", "S10") and not spec.get("stringify"):
+                decs = decs + ("pt",)  # a decider that derives directly from BaseDecider
             for dec in decs:
                 # stateful deciders (PI-grow) need some depth before their state can leak between mappings
                 offs = (1, 2) if (dec == "pigrow" and (tier != "quick" or spec["name"].startswith("S"))) else (1,)
